@@ -232,6 +232,23 @@ func main() {
 			}
 		}
 	}
+	// a big queue (4200 futures, beyond any initial slice capacity or batch size), most of it cancelled again: what remains
+	// starts exactly once, on time
+	{
+		const total, cancelled = 4200, 3300
+		ds := make([]time.Duration, total)
+		plan := make([]byte, total)
+		for i := range ds {
+			ds[i] = 50 * ms
+			plan[i] = '-'
+			if i < cancelled {
+				plan[i] = 'n'
+			}
+		}
+		sc := script(ds, string(plan), false, 2, 0)
+		sc.MaxLate = ms
+		jobs = append(jobs, job(sc, vsched.Config{P: 0, K: 0, Clock: vsched.Adversarial, Preempt: fine, MaxSteps: 20_000_000}))
+	}
 	// seven queued futures - three near ones (1,2,3 ms, in every order) interleaved in every way with four far ones
 	// (30..60 ms) - and one of them cancelled right away: the heap must stay a heap wherever the cancelled one sat, i.e.
 	// every other future still starts when it is due (no clock deviations, callbacks return at once)
